@@ -1,6 +1,7 @@
 package main
 
 import (
+	"sync"
 	"fmt"
 	"go/types"
 	"math/big"
@@ -164,6 +165,7 @@ type Obligation struct {
 }
 
 type Enc struct {
+	axMu       sync.Mutex
 	usedAxioms map[string]bool // trusted spec axioms (by trigger symbol) that entered this function's queries
 	usesUncomparable bool // an interface comparison was encoded (declare uncomparable_tag and its facts)
 	roCells []roCell // local cells no callee can write (see cellWrittenOnlyHere)
